@@ -1,0 +1,42 @@
+//go:build verif && !windows
+
+package desync
+
+import "context"
+
+// VerifIndexMountFile exposes the file node of an index mount (indexFile: Open
+// and Read, the way the FUSE bridge calls them) without a FUSE mount. Compiled
+// only with -tags verif; adds no behaviour to the package.
+type VerifIndexMountFile struct{ n *indexFile }
+
+// VerifNewIndexMountFile builds the node the way IndexMountFS.OnAdd does.
+func VerifNewIndexMountFile(idx Index, s Store) *VerifIndexMountFile {
+	return &VerifIndexMountFile{n: &indexFile{idx: idx, store: s}}
+}
+
+// VerifIndexMountHandle is a handle returned by the node's Open.
+type VerifIndexMountHandle struct {
+	n  *indexFile
+	fh interface{}
+}
+
+// Open opens a handle through the node's Open method; ok=false stands for an
+// errno other than OK.
+func (v *VerifIndexMountFile) Open() (*VerifIndexMountHandle, bool) {
+	fh, _, errno := v.n.Open(context.Background(), 0)
+	if errno != 0 {
+		return nil, false
+	}
+	return &VerifIndexMountHandle{n: v.n, fh: fh}, true
+}
+
+// Read performs one FUSE read request on the handle through the node's Read
+// method; ok=false stands for an errno other than OK.
+func (h *VerifIndexMountHandle) Read(dest []byte, off int64) (data []byte, ok bool) {
+	res, errno := h.n.Read(context.Background(), h.fh, dest, off)
+	if errno != 0 {
+		return nil, false
+	}
+	b, _ := res.Bytes(make([]byte, len(dest)))
+	return b, true
+}
